@@ -22,4 +22,7 @@ check_c20.build("tsan", "/repo")
 check_c20.build("native", "/repo")
 PY
 (cd .build/conc-miri 2>/dev/null || true; cargo +nightly miri setup >/dev/null 2>&1 || true)
+# validate the oracle (mpmath cross-check of the reference model); informative here, enforced by the thorough C01/C03/C17 checks
+./.build/release/target/release/hpxmon --prop SELFTEST --out .build/selftest.json >/dev/null 2>&1 && HPX=1 python3-vt oracle_selftest/selftest.py /tmp/hpx_selftest.txt || echo "oracle selftest did not pass (see above)"
+rm -f /tmp/hpx_selftest.txt .build/selftest.json
 echo "setup done"
